@@ -321,7 +321,6 @@ func c10MapOf(kvs [][2]string) map[string]string {
 
 // c10Mode: which of the listed defects the prediction emulates (all false = what the property demands).
 type c10Mode struct {
-	ImgRegex     bool // images entry name used as an unquoted regular expression
 	ImgTwice     bool // the entry is applied a second time to the images at the default field-spec paths
 	ListKeyRegex bool // [k=v] in a replacement TARGET path selects entries whose k contains a regexp match of v
 	SourceAlias  bool // the source value is read again before every write (live node, not a copy)
@@ -329,9 +328,6 @@ type c10Mode struct {
 
 func (m c10Mode) class() string {
 	parts := []string{}
-	if m.ImgRegex {
-		parts = append(parts, "image-name-unquoted-regex")
-	}
 	if m.ImgTwice {
 		parts = append(parts, "image-tagsuffix-applied-twice")
 	}
@@ -461,10 +457,6 @@ func c10VisitImages(v interface{}, f func(m map[string]interface{})) {
 }
 
 func c10ImgMatch(mode c10Mode, entry, s string) bool {
-	if mode.ImgRegex {
-		re, err := regexp.Compile("^" + entry + "(:[a-zA-Z0-9_.{}-]*)?(@sha256:[a-zA-Z0-9_.{}-]*)?$")
-		return err == nil && re.MatchString(s)
-	}
 	name, _, _ := c10RefParts(s)
 	return name == entry
 }
@@ -1058,11 +1050,6 @@ func (t c10Tree) compare(p c10Pred, output string) ([]c10Diff, error) {
 func (t c10Tree) classify(cls string, out string) string {
 	switch cls {
 	case ClsPanic:
-		for _, im := range t.Images {
-			if _, err := regexp.Compile(im.Name); err != nil {
-				return "C10/image-name-regex-compile-panic"
-			}
-		}
 		return "C10/build-panics"
 	case ClsDiverge:
 		if c10ExpectHang(c10Case{Kind: "repl", Repls: t.Repls}) {
@@ -1071,9 +1058,9 @@ func (t c10Tree) classify(cls string, out string) string {
 		return "C10/build-does-not-return"
 	}
 	undecided := false
-	modes := []c10Mode{{ImgRegex: true}, {ImgTwice: true}, {ImgRegex: true, ImgTwice: true}, {ListKeyRegex: true}, {SourceAlias: true}, {ListKeyRegex: true, SourceAlias: true}}
+	modes := []c10Mode{{ImgTwice: true}, {ListKeyRegex: true}, {SourceAlias: true}, {ListKeyRegex: true, SourceAlias: true}}
 	for _, m := range modes {
-		if (m.ImgRegex || m.ImgTwice) && len(t.Images) == 0 {
+		if m.ImgTwice && len(t.Images) == 0 {
 			continue
 		}
 		if (m.ListKeyRegex || m.SourceAlias) && len(t.Repls) == 0 {
